@@ -82,7 +82,7 @@ func init() {
 		Store: storeWorker,
 		Parts: func(tier string, seed uint64) []part {
 			if tier == "quick" {
-				return []part{{Name: "store", Count: int(envInt("VERIF_C04_RECORDS", 2800))}, {Name: "short", Count: int(envInt("VERIF_C04_SHORT", 192))}, {Name: "history", Count: 4}, {Name: "scale", Count: props.ScaleJobs()}, {Name: "deep", Count: props.DeepCount()}}
+				return []part{{Name: "store", Count: int(envInt("VERIF_C04_RECORDS", 2400))}, {Name: "short", Count: int(envInt("VERIF_C04_SHORT", 192))}, {Name: "history", Count: 4}, {Name: "scale", Count: props.ScaleJobs()}, {Name: "deep", Count: props.DeepCount()}}
 			}
 			return []part{{Name: "store", Count: int(envInt("VERIF_C04_RECORDS", 12000))}, {Name: "short", Count: int(envInt("VERIF_C04_SHORT", 200))}, {Name: "history", Count: 8}, {Name: "scale", Count: props.ScaleJobs()}, {Name: "deep", Count: props.DeepCount()}}
 		},
@@ -120,7 +120,7 @@ func init() {
 		Gen:           props.GenC19,
 		SweepJobs:     props.C19SweepJobs,
 		SweepScenario: props.SweepScenario,
-		Parts:         schedParts("C19", props.C19SweepJobs, 60000, 10000, 2000000, 300000),
+		Parts:         schedParts("C19", props.C19SweepJobs, 40000, 5000, 2000000, 300000),
 		Rule:          "runs = scenarios in which 1-6 simulated caller goroutines decode streams of records of types with interned string fields (several tables per struct, null.String, interned fields inside slice elements and map values) from re-used ring buffers that are overwritten between calls; strings come from a per-run vocabulary built to collide (new, repeated, empty, one byte, shared prefixes, binary, invalid UTF-8). Every decode is compared with the solo decode and with the non-interned twin type's decode of the same bytes, every encoding with the twin's, every held string is re-checked against an independent copy after each scribble and at the end. Sweep part: one preemption at every yield of the first of two decodes that insert the same / different new strings. Non-trivial = at least 2 tasks in flight and at least one hand-off inside an operation; distinct = distinct interleaving ids",
 		Assumptions: []string{
 			"preemption only at the instrumented sites (intern.miss, before Lock, intern.locked, intern.publish and the decode loops); the -race part covers unordered accesses to the table elsewhere",
@@ -143,7 +143,7 @@ func init() {
 	propDefs["C10"] = &PropDef{
 		ID: "C10", Level: "exploration", Echo: true,
 		Gen:   props.GenC10,
-		Parts: schedParts("C10", nil, 160000, 6000, 3000000, 100000),
+		Parts: schedParts("C10", nil, 120000, 5000, 3000000, 100000),
 		Rule:  "runs = histories on one long-lived instance: 1-3 simulated caller goroutines, 4-8 operations each: decode into a fresh target, decode into a re-used target (previously holding longer / shorter / differently populated values, so capacity is re-used with stale elements beyond len), decode a torn record (aborted operation), Marshal; sync.Pool policy of the map key scratch owned by the simulator (recycled-dirty 70% / fresh / dropped). Oracles: fresh decodes equal the solo decode on a brand-new instance (history independence); a re-used target equals an exactly-sized deep copy of its prior value after decoding the same bytes (physical twin); slices present in the data hold exactly the encoded elements; on the merge family the executable merge rules of the statement. Non-trivial / distinct as for C07, plus single-task histories count as non-trivial when a target or pooled scratch was re-used",
 		Assumptions: []string{
 			"where the statement is silent (struct-valued map entries under an existing key) no expectation is encoded: the merge model is only applied to types whose map values are scalars, strings or pointers to scalars, and only when the fresh round trip of the value is the identity",
